@@ -2055,6 +2055,57 @@ func ruleRewriteByResult(c *Ctx, rule string) {
 		})
 	}
 	resetKeyCount()
+	// the tree walker itself returns, as the replacement of a node, only what a
+	// folding / evaluating call returned: a literal built on the spot for a CALL
+	// (`len("abc")` -> 3) bypasses the evaluator and with it the disabled and
+	// shadowed builtins the evaluator honours
+	if tr := l.Method(modPath, "SimpleOptimizer", "transform"); tr != nil {
+		eachInstr(tr, func(ins ssa.Instruction) {
+			r, ok := ins.(*ssa.Return)
+			if !ok || len(r.Results) != 2 || !r.Pos().IsValid() {
+				return // (the synthetic return of the recover block has no position)
+			}
+			v := returnedValue(r, 0)
+			if k, isC := v.(*ssa.Const); isC && k.IsNil() {
+				return
+			}
+			var viaCall func(v ssa.Value, d int) bool
+			viaCall = func(v ssa.Value, d int) bool {
+				if d > 4 {
+					return false
+				}
+				switch x := v.(type) {
+				case *ssa.Extract:
+					_, ok := x.Tuple.(*ssa.Call)
+					return ok
+				case *ssa.Call:
+					return true
+				case *ssa.MakeInterface:
+					return viaCall(x.X, d+1)
+				case *ssa.ChangeInterface:
+					return viaCall(x.X, d+1)
+				case *ssa.Const:
+					return x.IsNil()
+				case *ssa.Phi:
+					for _, e := range x.Edges {
+						if !viaCall(e, d+1) {
+							return false
+						}
+					}
+					return true
+				}
+				return false
+			}
+			n++
+			key := fnName(tr) + " | replacement returned"
+			if k := countKey(key); k > 1 {
+				key += fmt.Sprintf(" #%d", k)
+			}
+			c.Check(rule, key, l.Pos(r.Pos()), viaCall(v, 0), "the result of a folding / evaluating call",
+				"the tree walker returns an expression it built itself ("+describe(v)+") as the replacement of a node: a call folded without the evaluator ignores the builtins the host disabled or the script shadowed (`len(\"abc\")` becomes 3 although `len` is disabled)")
+		})
+		resetKeyCount()
+	}
 	if n == 0 {
 		c.Und(rule, "optimizer stores into parser nodes", "-", "none found")
 	}
@@ -2476,6 +2527,15 @@ func ruleSearchLastLE(c *Ctx, rule string) {
 					strict = true
 				}
 			})
+			// the searched range is the whole slice: n is len(x) of the slice the predicate indexes
+			whole := false
+			if lc, ok := cl.Call.Args[0].(*ssa.Call); ok {
+				if b, ok := lc.Call.Value.(*ssa.Builtin); ok && b.Name() == "len" {
+					whole = true
+				}
+			}
+			c.Check(rule, fnName(fn)+" | sort.Search range", l.Pos(cl.Pos()), whole, "all entries are searched (n is the length of the slice)",
+				"the binary search covers fewer entries than the slice has (n is not its length): positions in the last file are not found unless a cache that decoded file sets do not have happens to hold it, and errors there are reported without file and line")
 			c.Check(rule, fnName(fn)+" | sort.Search(...) - 1", l.Pos(cl.Pos()), strict, "the predicate is `entry > key`: the result is the last entry <= key",
 				"the index is computed as sort.Search(n, pred) - 1 with a predicate other than `entry > key`: the first position of every file (line) is looked up in the previous one, so errors at the very start of an imported source module (also after an encode / decode round trip) are reported with the wrong file")
 		})
@@ -2506,4 +2566,329 @@ func ruleTraceDedupAdjacent(c *Ctx, rule string) {
 	}
 	c.Check(rule, "RuntimeError.addTrace | which earlier positions suppress a new one", l.Pos(at.Pos()), !loop, "no loop: only the last recorded position is compared",
 		"addTrace walks over the recorded trace: a position is suppressed when it occurs anywhere earlier, so frames of a recursion that passes through the same statement again are missing from the reported stack trace")
+}
+
+// ---- C14/callback-err (also C09) -----------------------------------------------------------------------------------------------
+// Library functions that call a script function once per element (strings.Map,
+// IndexFunc, TrimFunc ...) run the Invoker inside a Go callback that cannot
+// return an error; the callback records the error in a variable it captures and
+// the library function returns it afterwards.  Two clauses per such callback:
+// (sticky) the Invoke call is reached only while the captured error is nil, so
+// that a later, successful call cannot overwrite an error already recorded -
+// the error a script function throws reaches the caller as it would from a
+// plain loop in the script; (per-call) the captured variable is a local of the
+// function that makes the library call, not of an enclosing factory: otherwise
+// the error of one call (a VMAbortedError, say) is still there for every later
+// call, on any VM.
+func ruleCallbackErr(c *Ctx, rule string) {
+	l := c.L
+	inv := l.Method(modPath, "Invoker", "Invoke")
+	if !c.Anchor(rule, "Invoker.Invoke", inv != nil) {
+		return
+	}
+	n := 0
+	for _, fn := range l.RepoFuncs(func(pp string) bool { return strings.HasPrefix(pp, modPath+"/stdlib") || pp == modPath }) {
+		if fn.Parent() == nil {
+			continue
+		}
+		eachInstr(fn, func(ins ssa.Instruction) {
+			cl, ok := ins.(*ssa.Call)
+			if !ok || cl.Call.StaticCallee() != inv || cl.Referrers() == nil {
+				return
+			}
+			// the error result stored into a captured variable
+			var cell *ssa.FreeVar
+			for _, r := range *cl.Referrers() {
+				ex, ok := r.(*ssa.Extract)
+				if !ok || ex.Index != 1 || ex.Referrers() == nil {
+					continue
+				}
+				for _, rr := range *ex.Referrers() {
+					if st, ok := rr.(*ssa.Store); ok {
+						if fv, ok := st.Addr.(*ssa.FreeVar); ok {
+							cell = fv
+						}
+					}
+				}
+			}
+			if cell == nil {
+				return
+			}
+			n++
+			// (sticky)
+			sticky := false
+			for _, g := range guardEdges(cl.Block()) {
+				bo, ok := g.If.Cond.(*ssa.BinOp)
+				if !ok || (bo.Op != token.EQL && bo.Op != token.NEQ) {
+					continue
+				}
+				for _, pr := range [][2]ssa.Value{{bo.X, bo.Y}, {bo.Y, bo.X}} {
+					k, isNil := pr[1].(*ssa.Const)
+					ld, isLoad := pr[0].(*ssa.UnOp)
+					if isNil && k.IsNil() && isLoad && ld.X == ssa.Value(cell) && (bo.Op == token.EQL) == g.Truth {
+						sticky = true
+					}
+				}
+			}
+			key := fnName(fn) + " | error of the script function recorded by the callback"
+			c.Check(rule, key+" | sticky", l.Pos(cl.Pos()), sticky, "Invoke is reached only while the recorded error is nil",
+				"the callback calls the script function again after an error was recorded and stores the new (nil) error over it: an error thrown by the script function for one element is lost when a later element succeeds (IndexFunc returns an index and no error)")
+			// (per-call): the cell bound to the free variable is an Alloc of the direct parent
+			idx := -1
+			for k, q := range fn.FreeVars {
+				if q == cell {
+					idx = k
+				}
+			}
+			perCall := false
+			eachInstr(fn.Parent(), func(x ssa.Instruction) {
+				if mc, ok := x.(*ssa.MakeClosure); ok && mc.Fn == ssa.Value(fn) && idx >= 0 && idx < len(mc.Bindings) {
+					if _, isAlloc := mc.Bindings[idx].(*ssa.Alloc); isAlloc {
+						perCall = true
+					}
+				}
+			})
+			c.Check(rule, key+" | per call", l.Pos(cl.Pos()), perCall, "the variable is a local of the function that makes the library call",
+				"the variable in which the callback records the error belongs to an enclosing function (it is shared by every call of the library function, on every VM): an abort or error recorded once makes every later call fail with it without calling the script function")
+		})
+	}
+	if n == 0 {
+		c.Und(rule, "callbacks recording the error of Invoker.Invoke", "-", "none found")
+	}
+}
+
+// ---- C16/throw-trace-flag ------------------------------------------------------------------------------------------------------
+// throw(err, noTrace) records the position of the failing instruction unless
+// noTrace is set.  Where a Go error re-enters the VM, only an error that already
+// is a *RuntimeError (it carries its own trace: it comes from a nested VM) is
+// thrown with noTrace = true; an error the VM wraps right there (newError,
+// newErrorFromError ...) is thrown with noTrace = false, otherwise the line of
+// the statement that failed is missing from the trace while its callers' lines
+// are reported.
+func ruleThrowTraceFlag(c *Ctx, rule string) {
+	l := c.L
+	throw := l.Method(modPath, "VM", "throw")
+	if !c.Anchor(rule, "VM.throw", throw != nil) {
+		return
+	}
+	n := 0
+	for _, fn := range l.RepoFuncs(func(pp string) bool { return pp == modPath }) {
+		var errParam *ssa.Parameter
+		for _, p := range fn.Params {
+			if isErrorType(p.Type()) {
+				errParam = p
+			}
+		}
+		if errParam == nil {
+			continue
+		}
+		eachInstr(fn, func(ins ssa.Instruction) {
+			cl, ok := ins.(*ssa.Call)
+			if !ok || cl.Call.StaticCallee() != throw || len(cl.Call.Args) < 3 {
+				return
+			}
+			// is the thrown error made here (a call result), or the parameter itself?
+			v := cl.Call.Args[1]
+			made := false
+			switch x := v.(type) {
+			case *ssa.Call:
+				made = true
+			case *ssa.Extract:
+				_, made = x.Tuple.(*ssa.Call)
+			}
+			if !made {
+				return
+			}
+			n++
+			k, isConst := cl.Call.Args[2].(*ssa.Const)
+			traced := isConst && k.Value != nil && k.Value.Kind() == constant.Bool && !constant.BoolVal(k.Value)
+			key := fnName(fn) + " | error wrapped here and thrown"
+			if kk := countKey(key); kk > 1 {
+				key += fmt.Sprintf(" #%d", kk)
+			}
+			c.Check(rule, key, l.Pos(cl.Pos()), traced, "thrown with noTrace = false: the failing instruction's position is recorded",
+				"an error that the VM wraps at this point is thrown with noTrace = true: the position of the statement that failed (a host function returning a plain Go error, a recovered panic) is missing from the stack trace, only the callers' lines are reported")
+		})
+	}
+	resetKeyCount()
+	if n == 0 {
+		c.Und(rule, "errors wrapped and thrown", "-", "no function with an error parameter throws a freshly wrapped error")
+	}
+}
+
+// ---- C05/fixpoint-reset ---------------------------------------------------------------------------------------------------------
+// The optimizer repeats passes until a pass changes nothing: the loop's exit
+// tests a counter of the changes of the pass against zero.  The counter is reset
+// to zero INSIDE that loop (a store of 0 into the tested field on the cycle
+// through the test): reset once before the loop, the test can never succeed
+// after the first productive pass, every further pass is booked as productive
+// again, and Compile ends only when the budget is used up - never, for an
+// unlimited budget.
+func ruleFixpointReset(c *Ctx, rule string) {
+	l := c.L
+	optT := l.NamedType(modPath, "SimpleOptimizer")
+	if !c.Anchor(rule, "type SimpleOptimizer", optT != nil) {
+		return
+	}
+	ost, _ := optT.Underlying().(*types.Struct)
+	n := 0
+	for _, fn := range l.RepoFuncs(func(pp string) bool { return pp == modPath }) {
+		for _, b := range fn.Blocks {
+			if len(b.Instrs) == 0 {
+				continue
+			}
+			iff, ok := b.Instrs[len(b.Instrs)-1].(*ssa.If)
+			if !ok {
+				continue
+			}
+			bo, ok := iff.Cond.(*ssa.BinOp)
+			if !ok || (bo.Op != token.EQL && bo.Op != token.NEQ) {
+				continue
+			}
+			k, ok := constInt64(bo.Y)
+			if !ok || k != 0 {
+				continue
+			}
+			ld, ok := bo.X.(*ssa.UnOp)
+			if !ok || ld.Op != token.MUL {
+				continue
+			}
+			fa, ok := ld.X.(*ssa.FieldAddr)
+			if !ok {
+				continue
+			}
+			pt, ok := fa.X.Type().Underlying().(*types.Pointer)
+			if !ok || ost == nil || !types.Identical(pt.Elem().Underlying(), ost) {
+				continue
+			}
+			// the test lies on a cycle and one outcome leaves it (a loop exit)
+			onCycle := false
+			exits := false
+			for _, s := range b.Succs {
+				if s == b || blockReaches(s, b) {
+					onCycle = true
+				} else {
+					exits = true
+				}
+			}
+			if !onCycle || !exits {
+				continue
+			}
+			n++
+			reset := false
+			for _, x := range fn.Blocks {
+				if !(x == b || (blockReaches(x, b) && blockReaches(b, x))) {
+					continue
+				}
+				for _, ins := range x.Instrs {
+					if st, ok := ins.(*ssa.Store); ok {
+						if sfa, ok := st.Addr.(*ssa.FieldAddr); ok && sfa.Field == fa.Field && (sfa.X == fa.X || exprEq(sfa.X, fa.X)) {
+							if kk, ok := constInt64(st.Val); ok && kk == 0 {
+								reset = true
+							}
+						}
+					}
+				}
+			}
+			c.Check(rule, fmt.Sprintf("%s | loop exit on %s == 0", fnName(fn), ost.Field(fa.Field).Name()), l.Pos(iff.Pos()), reset, "the counter is reset to zero inside the loop",
+				"the loop ends when "+ost.Field(fa.Field).Name()+" is zero, but the counter is never reset to zero inside the loop: after the first productive pass the test cannot succeed, every pass is booked as productive again and the loop runs until the budget is exhausted - Compile does not terminate for a large budget")
+		}
+	}
+	if n == 0 {
+		c.Und(rule, "fixpoint loops of the optimizer", "-", "no loop exit on a zero counter found")
+	}
+}
+
+// ---- C05/rollback-boundary (also C10, C12) ----------------------------------------------------------------------------------
+// Rolling the module store back to a count n keeps exactly the modules with an
+// index below n: module indexes are 0-based and the count is also the next index
+// handed out.  In the function that stores its parameter into the store's count,
+// the delete of an entry is guarded by `index >= n` (interval analysis of the
+// entry's index at the delete: its lower bound is n itself).  With `index > n`
+// the first module registered by the failed compilation survives with an index
+// equal to the restored count; the next fragment importing it indexes a constant
+// that was never stored.
+func ruleRollbackBoundary(c *Ctx, rule string) {
+	l := c.L
+	st, fCount := l.structField(modPath, "moduleStore", "count")
+	if !c.Anchor(rule, "moduleStore.count", st != nil && fCount >= 0) {
+		return
+	}
+	n := 0
+	for _, fn := range l.RepoFuncs(func(pp string) bool { return pp == modPath }) {
+		// stores a parameter into count
+		var param *ssa.Parameter
+		eachInstr(fn, func(ins ssa.Instruction) {
+			s, ok := ins.(*ssa.Store)
+			if !ok {
+				return
+			}
+			if _, ok := isFieldAddrOf(s.Addr, modPath, "moduleStore", fCount); !ok {
+				return
+			}
+			if p, ok := s.Val.(*ssa.Parameter); ok {
+				param = p
+			}
+		})
+		if param == nil {
+			continue
+		}
+		eachInstr(fn, func(ins ssa.Instruction) {
+			cl, ok := ins.(*ssa.Call)
+			if !ok {
+				return
+			}
+			b, ok := cl.Call.Value.(*ssa.Builtin)
+			if !ok || b.Name() != "delete" {
+				return
+			}
+			n++
+			// a guard on the way compares an int field load with the parameter such
+			// that at the delete index >= param holds, and nothing weaker
+			exact := false
+			for _, g := range guardEdges(cl.Block()) {
+				bo, ok := g.If.Cond.(*ssa.BinOp)
+				if !ok {
+					continue
+				}
+				x, y, op := bo.X, bo.Y, bo.Op
+				if x == ssa.Value(param) { // n <op> idx  ->  idx <op'> n
+					x, y = y, x
+					switch op {
+					case token.LSS:
+						op = token.GTR
+					case token.LEQ:
+						op = token.GEQ
+					case token.GTR:
+						op = token.LSS
+					case token.GEQ:
+						op = token.LEQ
+					}
+				}
+				if y != ssa.Value(param) {
+					continue
+				}
+				if !g.Truth { // negate
+					switch op {
+					case token.LSS:
+						op = token.GEQ
+					case token.LEQ:
+						op = token.GTR
+					case token.GTR:
+						op = token.LEQ
+					case token.GEQ:
+						op = token.LSS
+					}
+				}
+				if op == token.GEQ {
+					exact = true
+				}
+			}
+			c.Check(rule, fnName(fn)+" | entries removed by the rollback", l.Pos(cl.Pos()), exact, "exactly the entries with index >= the restored count",
+				"the rollback removes the entries selected by another comparison than `index >= n` with n the restored count: the entry whose index equals the restored count survives (or a valid one is removed); the next compilation that imports that module indexes a constant that was never stored (index out of range inside Compile, or bytecode with NumModules 0 that loads module 0)")
+		})
+	}
+	if n == 0 {
+		c.Und(rule, "rollback of the module store", "-", "no function restores the module count from a parameter and deletes entries")
+	}
 }
